@@ -425,7 +425,7 @@ def nontrivial_cache(prog, impl):
     return hits > 0 and miss > 1
 
 
-C01 = CoreProp("C01", ("eval", "keys", "cache"), c01_programs, c01_oracle, phase2=c01_phase2, classify=c01_classify,
+C01 = CoreProp("C01", ("eval", "keys", "cache", "reads"), c01_programs, c01_oracle, phase2=c01_phase2, classify=c01_classify,
                nontrivial=nontrivial_cache,
                rule="histories of 5-8 dictionaries (single-key perturbations, revisits) on one long-lived graph, each "
                     "evaluation paired with the same evaluation under labrea.cache.disabled(); phase 2: for keys the model "
@@ -768,7 +768,7 @@ def c03_classify(prog, meta, what):
     return effect_reads_program(prog) or catch_unsafe_program(prog) or brace_resubstitution_program(prog)
 
 
-C03 = CoreProp("C03", ("keys", "eval"), c03_programs, c03_oracle, phase2=c03_phase2, classify=c03_classify,
+C03 = CoreProp("C03", ("keys", "eval", "reads"), c03_programs, c03_oracle, phase2=c03_phase2, classify=c03_classify,
                nontrivial=nontrivial_eval, hashseeds=("0", "1", "4242"),
                rule="keys()/evaluate on fresh graphs over dictionary families; phase 2 re-evaluates on the dictionary "
                     "restricted to the reported keys (independent restrict) and on add/change/delete perturbations outside "
@@ -1090,7 +1090,7 @@ def c04_full_oracle(prog, meta, impl, model):
     return c04_oracle(prog, meta, impl, model) + c04_ns_oracle(prog, meta, impl, model)
 
 
-C04 = CoreProp("C04", ("eval", "mut"), c04_programs, c04_full_oracle, nontrivial=lambda p, i: True,
+C04 = CoreProp("C04", ("eval", "mut", "reads"), c04_programs, c04_full_oracle, nontrivial=lambda p, i: True,
                rule="key universe (flat, dotted, list-indexed, prefixes of one another) x value universe (every falsy "
                     "value, containers, templated strings) x default forms x domains, each with the key present and "
                     "absent; independent dotted lookup as oracle; namespaces against fully-qualified Options")
@@ -1268,7 +1268,7 @@ def c08_oracle(prog, meta, impl, model):
     return out
 
 
-C08 = CoreProp("C08", ("eval", "validate", "keys", "mut"), c08_programs, c08_oracle, nontrivial=nontrivial_eval,
+C08 = CoreProp("C08", ("eval", "validate", "keys", "mut", "reads"), c08_programs, c08_oracle, nontrivial=nontrivial_eval,
                rule="wrapper nestings of depth 1-3 (forced / default) and datasets with options/default_options and "
                     "with_options/with_default_options derivatives, P, D, o overlapping inside the same sections; each compared "
                     "with the inner expression evaluated under an independently computed overlay; deep snapshots of every input")
@@ -1454,7 +1454,7 @@ def c09_oracle(prog, meta, impl, model):
     return out
 
 
-C09 = CoreProp("C09", ("eval", "keys", "explain"), c09_programs, c09_oracle, nontrivial=lambda p, i: True,
+C09 = CoreProp("C09", ("eval", "keys", "explain", "reads"), c09_programs, c09_oracle, nontrivial=lambda p, i: True,
                classify=lambda prog, meta, what: None if what.startswith("a Template fails with a missing-key error") else
                (param_in_option_value_program(prog) or brace_resubstitution_program(prog)),
                rule="templates over the atom alphabet {literal, {KEY}, {DOTTED.KEY}, {:param:}, escaped braces} up to 4 atoms, "
@@ -1702,7 +1702,7 @@ def c10_classify(prog, meta, what):
             or scalar_prefix_program(prog))
 
 
-C10 = CoreProp("C10", ("validate", "keys", "eval", "trace"), c10_programs, c10_oracle, classify=c10_classify,
+C10 = CoreProp("C10", ("validate", "keys", "eval", "trace", "reads"), c10_programs, c10_oracle, classify=c10_classify,
                nontrivial=nontrivial_eval,
                rule="random graphs (bodies total; a second stream with bodies raising on declared inputs) x dictionary families; "
                     "validate/keys/explain/evaluate on a cold graph, then validate/keys/evaluate again warm")
@@ -1824,7 +1824,7 @@ def c11_oracle(prog, meta, impl, model):
     return out
 
 
-C11 = CoreProp("C11", ("explain", "keys", "validate"), c11_programs, c11_oracle, classify=c11_classify,
+C11 = CoreProp("C11", ("explain", "keys", "validate", "reads"), c11_programs, c11_oracle, classify=c11_classify,
                nontrivial=nontrivial_eval,
                rule="random graphs x (empty dictionary, increasing sub-dictionaries of a sufficient one, the full one): "
                     "explain/keys/validate on fresh graphs")
